@@ -210,3 +210,44 @@ func Events(res Result) []int64 {
 	}
 	return out
 }
+
+// HardEvidence says whether the run shows something that load on the machine cannot cause:
+// a panic, a lock-held snapshot that breaks a state invariant (SnapSuspicious, the mirror of
+// snap_ok), a future started twice, not after its fire time, or after a Cancel that had
+// returned in time. UNTRUSTED: it only stops the drivers from re-running (and thereby
+// discarding) such a run because some other future has not started yet; Coq judges the run.
+func HardEvidence(sc Scenario, res Result) bool {
+	if len(res.Panics) > 0 || res.Unknown > 0 {
+		return true
+	}
+	for _, f := range res.Futs {
+		if !f.Created {
+			continue
+		}
+		if len(f.Starts) > 1 || (!f.NonNil && len(f.Starts) > 0) {
+			return true
+		}
+		for _, st := range f.Starts {
+			if st <= f.Fire || st <= f.Call0+f.DNs {
+				return true
+			}
+		}
+		if len(f.Starts) > 0 && len(f.Cancels) > 0 {
+			first := f.Cancels[0][1]
+			for _, c := range f.Cancels {
+				if c[1] < first {
+					first = c[1]
+				}
+			}
+			if first <= f.Fire {
+				return true
+			}
+		}
+	}
+	for _, s := range res.Snaps {
+		if SnapSuspicious(sc, res, s) {
+			return true
+		}
+	}
+	return false
+}
